@@ -13,6 +13,12 @@
 //!                                                    universe); the three chunk fetches complete in the
 //!                                                    order `permute lehmer [0,1,2]`
 //!   vault <key> <reply>                              Client::fetch_and_decrypt_vault(secret key <key>)
+//!   vaultperm <key> sp=<rec>,...                     the same split reply in every iteration order (all permutations up to 3
+//!                                                    records, else the rotations of the listed order and of its reverse);
+//!                                                    each order runs and is judged as a `vault` case of its own
+//!   data sets 0-2: ordinary bytes; 3: 3072 zero bytes, 4: 300 x 'a' (three identical chunks: the data map names ONE address
+//!   three times), 5: sparse (mostly zeros; its three chunks still differ, their keys come from the neighbours). e<k>.<i> of identical chunks is written with the first index; every
+//!   request for a key is answered with the reply of the first e<i> of that key
 //! <content> = g<id> (generic bytes) | m<k> (data-map chunk of data set k) | e<k>.<i> (i-th encrypted chunk of set k)
 //! <reply>   = nf | to | km | nc=<rec> | dn=<rec> | ok=<rec> | sp=<rec>,<rec>,...   (split: `result_map.values()` iterates in
 //!             exactly the listed order — the harness rebuilds the HashMap until it does)
@@ -44,7 +50,10 @@ use tokio::sync::mpsc;
 use xor_name::XorName;
 
 const N_GEN: u64 = 4;
-const N_SETS: u64 = 3;
+const N_SETS: u64 = 6;
+/// for every data set: index of the first chunk with the same bytes as chunk i (repeated content gives repeated chunks:
+/// one address named by several entries of the data map) — asserted against the real output at start-up, mirrored in the driver
+const CHUNK_CLASSES: [[usize; 3]; 6] = [[0, 1, 2], [0, 1, 2], [0, 1, 2], [0, 0, 0], [0, 0, 0], [0, 1, 2]];
 const N_OWNERS: u64 = 3;
 const STRANGER: u64 = 9;
 
@@ -75,7 +84,17 @@ impl World {
     fn new() -> Self {
         let mut sets = vec![];
         for k in 0..N_SETS {
-            let data: Vec<u8> = (0..(90 + 17 * k)).map(|i| (i as u8).wrapping_mul(31).wrapping_add(k as u8)).collect();
+            let data: Vec<u8> = match k {
+                0..=2 => (0..(90 + 17 * k)).map(|i| (i as u8).wrapping_mul(31).wrapping_add(k as u8)).collect(),
+                3 => vec![0u8; 3072],  // zero-filled: three identical chunks
+                4 => vec![b'a'; 300],  // one repeated byte
+                _ => {
+                    // sparse: a little content at the start, zeros after it
+                    let mut d = vec![0u8; 3000];
+                    d[..8].copy_from_slice(b"verifC15");
+                    d
+                }
+            };
             let (dm, chunks) = autonomi::self_encryption::encrypt(Bytes::from(data.clone())).expect("encrypt data set");
             // index order = order of the data map's infos
             let lvl: MirrorLevel = rmp_serde::from_slice(dm.value()).expect("data map level");
@@ -89,6 +108,8 @@ impl World {
                 let c = chunks.iter().find(|c| c.name() == &info.dst_hash).expect("chunk of info");
                 enc.push(c.value().to_vec());
             }
+            let classes: Vec<usize> = (0..3).map(|i| (0..3).find(|j| enc[*j] == enc[i]).unwrap_or(i)).collect();
+            assert_eq!(classes, CHUNK_CLASSES[k as usize].to_vec(), "chunk classes of data set {k}");
             sets.push((data, dm.value().to_vec(), enc));
         }
         World { sets }
@@ -118,7 +139,9 @@ impl World {
         for k in 0..N_SETS {
             v.push(format!("m{k}"));
             for i in 0..3 {
-                v.push(format!("e{k}.{i}"));
+                if CHUNK_CLASSES[k as usize][i] == i {
+                    v.push(format!("e{k}.{i}"));
+                }
             }
         }
         v
@@ -148,7 +171,28 @@ fn pad_plain(owner: u64, ctr: u64, ver: u64) -> Vec<u8> {
 }
 
 /// `P<owner>.<ctr>.<sig>.<ver>` with the data encrypted to key `target`
+thread_local! {
+    /// built pads by (descriptor, target): signing and encrypting is the expensive part of a case, and `vaultperm`
+    /// runs the same pads in many orders
+    static PAD_CACHE: std::cell::RefCell<HashMap<(String, u64), Scratchpad>> = std::cell::RefCell::new(HashMap::new());
+}
+
 fn build_pad(desc: &str, target: u64) -> Option<Scratchpad> {
+    if let Some(p) = PAD_CACHE.with(|c| c.borrow().get(&(desc.to_string(), target)).cloned()) {
+        return Some(p);
+    }
+    let p = build_pad_uncached(desc, target)?;
+    PAD_CACHE.with(|c| {
+        let mut c = c.borrow_mut();
+        if c.len() > 4096 {
+            c.clear();
+        }
+        c.insert((desc.to_string(), target), p.clone());
+    });
+    Some(p)
+}
+
+fn build_pad_uncached(desc: &str, target: u64) -> Option<Scratchpad> {
     let p: Vec<&str> = desc.strip_prefix('P')?.split('.').collect();
     if p.len() != 4 {
         return None;
@@ -259,19 +303,34 @@ fn build_reply(w: &World, reply: &str, key: &RecordKey, target: u64) -> Option<G
         "dn" => Some(Err(GetRecordError::RecordDoesNotMatch(build_rec(w, rest, key, target)?))),
         "sp" => {
             let recs: Vec<Record> = rest.split(',').map(|d| build_rec(w, d, key, target)).collect::<Option<Vec<_>>>()?;
-            if recs.is_empty() || recs.len() > 5 {
+            if recs.is_empty() || recs.len() > 6 {
                 return None;
             }
-            // `values()` must iterate in exactly the listed order: rebuild (fresh RandomState each time) until it does
-            for attempt in 0..200_000u64 {
-                let mut m: HashMap<XorName, (Record, HashSet<PeerId>)> = HashMap::new();
-                for (i, r) in recs.iter().enumerate() {
+            // `values()` must iterate in exactly the listed order: try fresh `RandomState`s on an index-only map until one
+            // gives that order, then build the real map with the same state and insertion sequence
+            let names: Vec<XorName> = recs
+                .iter()
+                .enumerate()
+                .map(|(i, r)| {
                     let mut name = sha3(&r.value);
                     name[0] = i as u8;
-                    name[1] = attempt as u8;
-                    m.insert(XorName(name), (r.clone(), HashSet::new()));
+                    XorName(name)
+                })
+                .collect();
+            for _ in 0..2_000_000u64 {
+                let state = std::collections::hash_map::RandomState::new();
+                let mut light: HashMap<XorName, usize> = HashMap::with_hasher(state.clone());
+                for (i, n) in names.iter().enumerate() {
+                    light.insert(*n, i);
                 }
-                if m.len() == recs.len() && m.values().zip(recs.iter()).all(|((a, _), b)| a.value == b.value) {
+                if light.len() != recs.len() || !light.values().enumerate().all(|(pos, i)| pos == *i) {
+                    continue;
+                }
+                let mut m: HashMap<XorName, (Record, HashSet<PeerId>)> = HashMap::with_hasher(state);
+                for (n, r) in names.iter().zip(recs.iter()) {
+                    m.insert(*n, (r.clone(), HashSet::new()));
+                }
+                if m.values().zip(recs.iter()).all(|((a, _), b)| a.value == b.value) {
                     return Some(Err(GetRecordError::SplitRecord { result_map: m }));
                 }
             }
@@ -466,8 +525,10 @@ fn exec(w: &World, rt: &tokio::runtime::Runtime, line: &str) -> String {
                     }
                     best.1
                 },
-                |key| match table.iter_mut().find(|(k, _)| k == key) {
-                    Some((_, r)) => r.take().unwrap_or(Err(GetRecordError::RecordNotFound)),
+                // every request for a key gets the reply of the first entry with that key (repeated chunks: one address,
+                // asked once per data-map entry that names it)
+                |key| match table.iter().find(|(k, _)| k == key) {
+                    Some((_, r)) => r.clone().unwrap_or(Err(GetRecordError::RecordNotFound)),
                     // any other key of the universe is served honestly (what a substituted data map points to exists)
                     None => match w.all_contents().into_iter().find(|t| w.content(t).map(|b| chunk_key(&b)).as_ref() == Some(key)) {
                         Some(t) => build_reply(w, &format!("ok=c:{t}"), key, 0).unwrap_or(Err(GetRecordError::RecordNotFound)),
@@ -477,10 +538,18 @@ fn exec(w: &World, rt: &tokio::runtime::Runtime, line: &str) -> String {
             ));
             match res {
                 None => "stuck".into(),
-                Some(Ok(d)) => match w.sets.iter().position(|s| s.0 == d.as_ref()) {
-                    Some(j) => format!("ok d{j}"),
-                    None => "ok ?".into(),
-                },
+                Some(Ok(d)) => {
+                    // whole-data analogue of the chunk check: the returned bytes self-encrypt back to the requested address
+                    let rehash = match autonomi::self_encryption::encrypt(d.clone()) {
+                        Ok((dm, _)) => sha3(dm.value()) == sha3(&w.sets[k].1),
+                        Err(_) => false,
+                    };
+                    let name = match w.sets.iter().position(|s| s.0 == d.as_ref()) {
+                        Some(j) => format!("ok d{j}"),
+                        None => format!("ok ?{}", d.len()),
+                    };
+                    if rehash { name } else { format!("{name} #rehash=bad") }
+                }
                 Some(Err(e)) => format!("err {}", get_error_class(&e)),
             }
         }
@@ -564,7 +633,24 @@ struct PadWire {
 /// Independent authenticity check of a record value (plain msgpack + blsttc + sha3, none of scratchpad.rs):
 /// `Some((counter, "owner.counter.ver"))` iff the body is a scratchpad owned by key `kn` whose signature by that key
 /// covers (counter, hash of the encrypted data).
+thread_local! {
+    static AUTH_CACHE: std::cell::RefCell<HashMap<(Vec<u8>, u64), Option<(u64, String)>>> = std::cell::RefCell::new(HashMap::new());
+}
 fn authentic_version(value: &[u8], kn: u64) -> Option<(u64, String)> {
+    if let Some(r) = AUTH_CACHE.with(|c| c.borrow().get(&(value.to_vec(), kn)).cloned()) {
+        return r;
+    }
+    let r = authentic_version_uncached(value, kn);
+    AUTH_CACHE.with(|c| {
+        let mut c = c.borrow_mut();
+        if c.len() > 4096 {
+            c.clear();
+        }
+        c.insert((value.to_vec(), kn), r.clone());
+    });
+    r
+}
+fn authentic_version_uncached(value: &[u8], kn: u64) -> Option<(u64, String)> {
     if value.len() <= 2 {
         return None;
     }
@@ -707,11 +793,133 @@ fn oracle(w: &World, rt: &tokio::runtime::Runtime, line: &str, out_line: &str, o
 // generator
 // ---------------------------------------------------------------------------------------------------------
 
+/// the iteration orders a split reply is tried in: all permutations up to 3 records, else the rotations of the listed
+/// order and of its reverse (mirrored by the Lean driver)
+fn orders_of(n: usize) -> Vec<Vec<usize>> {
+    fn perms(xs: &[usize]) -> Vec<Vec<usize>> {
+        if xs.is_empty() {
+            return vec![vec![]];
+        }
+        let mut out = vec![];
+        for i in 0..xs.len() {
+            let mut rest = xs.to_vec();
+            let x = rest.remove(i);
+            for mut p in perms(&rest) {
+                p.insert(0, x);
+                out.push(p);
+            }
+        }
+        out
+    }
+    let id: Vec<usize> = (0..n).collect();
+    if n <= 3 {
+        return perms(&id);
+    }
+    let mut out = vec![];
+    let rev: Vec<usize> = id.iter().rev().cloned().collect();
+    for base in [id, rev] {
+        for r in 0..n {
+            let mut v = base.clone();
+            v.rotate_left(r);
+            out.push(v);
+        }
+    }
+    out
+}
+
+/// `vaultperm <key> sp=<rec>,...`: the same set of replies in every order of `orders_of`; each order is a plain `vault`
+/// case of its own (executed on a fresh HashMap forced to that iteration order, judged by the per-case oracle and
+/// reported as that `vault` line); output = the distinct outcomes, sorted, joined by ` | `
+fn exec_vaultperm(w: &World, rt: &tokio::runtime::Runtime, line: &str, out: &mut Out) -> String {
+    let ws: Vec<&str> = line.split_whitespace().collect();
+    let (key, recs) = match ws.as_slice() {
+        ["vaultperm", key, reply] => match reply.strip_prefix("sp=") {
+            Some(r) => (*key, r.split(',').collect::<Vec<&str>>()),
+            None => return "bad-op".into(),
+        },
+        _ => return "bad-op".into(),
+    };
+    if recs.is_empty() || recs.len() > 6 {
+        return "bad-op".into();
+    }
+    let mut outcomes: Vec<String> = vec![];
+    for order in orders_of(recs.len()) {
+        let one = format!("vault {key} sp={}", order.iter().map(|i| recs[*i]).collect::<Vec<_>>().join(","));
+        let res = exec(w, rt, &one);
+        if res == "bad-op" {
+            return "bad-op".into();
+        }
+        oracle(w, rt, &one, &res, out);
+        out.count("vaultperm:orders");
+        if !outcomes.contains(&res) {
+            outcomes.push(res);
+        }
+    }
+    outcomes.sort();
+    // "the result does not depend on the order the replies arrive in": demanded where every reply is a scratchpad record
+    // claiming the requested key (authentic or forged) and the authentic versions have distinct counters — elsewhere the
+    // network layer's first-header-dictates-the-kind rule and counter ties make the outcome legitimately order dependent
+    let key_n: u64 = key.parse().unwrap_or(99);
+    let mut eligible = true;
+    let mut auth_ctrs: Vec<u64> = vec![];
+    for r in &recs {
+        match split_rec(r) {
+            Some(("s", b, _)) if b.starts_with('P') => {
+                let f: Vec<&str> = b[1..].split('.').collect();
+                if f.len() != 4 || f[0].parse::<u64>().ok() != Some(key_n) {
+                    eligible = false;
+                } else if f[2] == "v" {
+                    auth_ctrs.push(f[1].parse().unwrap_or(0));
+                }
+            }
+            _ => eligible = false,
+        }
+    }
+    let n_auth = auth_ctrs.len();
+    auth_ctrs.sort();
+    auth_ctrs.dedup();
+    if eligible && auth_ctrs.len() == n_auth && outcomes.len() > 1 {
+        out.oracle_fail(
+            "vault-order-independent",
+            line,
+            &format!("the same replies gave different results depending on their order: {}", outcomes.join(" | ")),
+        );
+    }
+    outcomes.join(" | ")
+}
+
+/// versions of the requested key's vault: authentic ones with distinct counters plus forged copies (unsigned, stranger's
+/// signature, counter inflated after signing) with counters above, between and below them, all under Scratchpad headers
+fn gen_versions(rng: &mut Rng, key: u64) -> Vec<String> {
+    let n_auth = rng.range(1, 4);
+    let mut ctrs: Vec<u64> = vec![];
+    while (ctrs.len() as u64) < n_auth {
+        let c = rng.range(1, 9);
+        if !ctrs.contains(&c) {
+            ctrs.push(c);
+        }
+    }
+    let mut recs: Vec<String> = ctrs.iter().map(|c| format!("s:P{key}.{c}.v.{}", rng.below(3))).collect();
+    for _ in 0..rng.range(1, 2) {
+        let c = match rng.below(4) {
+            0 => 1000,
+            1 => u64::MAX,
+            _ => rng.range(1, 12),
+        };
+        recs.push(format!("s:P{key}.{c}.{}.{}", rng.pick(&["i", "n", "w"]), rng.below(3)));
+    }
+    rng.shuffle(&mut recs);
+    recs
+}
+
 fn gen_content(rng: &mut Rng) -> String {
     match rng.below(5) {
         0 | 1 => format!("g{}", rng.below(N_GEN)),
         2 => format!("m{}", rng.below(N_SETS)),
-        _ => format!("e{}.{}", rng.below(N_SETS), rng.below(3)),
+        _ => {
+            let k = rng.below(N_SETS);
+            format!("e{k}.{}", CHUNK_CLASSES[k as usize][rng.below(3) as usize])
+        }
     }
 }
 fn gen_pad(rng: &mut Rng, key: u64) -> String {
@@ -799,11 +1007,20 @@ fn gen_case(rng: &mut Rng) -> String {
             let mr = gen_reply(rng, move |r| gen_chunk_rec(r, &mm), 17, &format!("c:{m}"));
             let mut es = vec![];
             for i in 0..3 {
-                let e = format!("e{k}.{i}");
+                let e = format!("e{k}.{}", CHUNK_CLASSES[k as usize][i]);
                 let ee = e.clone();
                 es.push(gen_reply(rng, move |r| gen_chunk_rec(r, &ee), 17, &format!("c:{e}")));
             }
             format!("data {k} o={code} m={mr} e0={} e1={} e2={}", es[0], es[1], es[2])
+        }
+        6 => {
+            let key = rng.below(N_OWNERS);
+            let recs = gen_versions(rng, key);
+            if rng.chance(1, 5) {
+                format!("vaultperm {key} sp={}", recs.join(","))
+            } else {
+                format!("vault {key} sp={}", recs.join(","))
+            }
         }
         _ => {
             let key = rng.below(N_OWNERS);
@@ -885,13 +1102,30 @@ const CORPUS: &[&str] = &[
     "vault 0 sp=o:P0.18446744073709551615.n.0,s:P0.3.v.0",
     "vault 0 sp=x:J,o:P1.9.v.1,s:P0.3.v.0",
     "vault 1 sp=c:g0,s:P1.2.v.0,s:P0.7.v.0,s:P1.8.i.2",
+    // a forged inflated counter between an older and the newest authentic version, in every order
+    "vault 0 sp=s:P0.3.v.0,s:P0.9.i.1,s:P0.5.v.2",
+    "vault 0 sp=s:P0.3.v.0,s:P0.1000.n.1,s:P0.5.v.2",
+    "vaultperm 0 sp=s:P0.3.v.0,s:P0.9.i.1,s:P0.5.v.2",
+    "vaultperm 0 sp=s:P0.1.v.0,s:P0.2.v.0,s:P0.3.v.0,s:P0.4.v.0,s:P0.5.v.0,s:P0.1000.i.1",
+    "vaultperm 1 sp=s:P1.4.v.1,s:P1.5.i.2,s:P1.6.v.1,s:P1.3.n.2",
+    "vaultperm 0 sp=s:P0.3.v.0,s:P0.4.v.1",
+    "vaultperm 0 sp=c:J,s:P0.3.v.0,s:P1.9.v.1",
+    // data with repeated content: several data-map entries name one address
+    "data 3 o=0.0.0 m=ok=c:m3 e0=ok=c:e3.0 e1=ok=c:e3.0 e2=ok=c:e3.0",
+    "data 3 o=2.1.0 m=ok=c:m3 e0=ok=c:e3.0 e1=nf e2=nf",
+    "data 4 o=0.1.0 m=ok=c:m4 e0=ok=c:e4.0 e1=ok=c:e4.0 e2=ok=c:e4.0",
+    "data 5 o=1.0.0 m=ok=c:m5 e0=ok=c:e5.0 e1=ok=c:e5.1 e2=ok=c:e5.2",
+    "data 5 o=0.0.0 m=ok=c:m5 e0=ok=c:e5.0 e1=ok=c:e3.0 e2=ok=c:e5.2",
+    "data 3 o=0.0.0 m=ok=c:m3 e0=ok=c:e4.0 e1=ok=c:e3.0 e2=ok=c:e3.0",
+    "data 3 o=0.0.0 m=ok=c:m4@own e0=ok=c:e3.0 e1=ok=c:e3.0 e2=ok=c:e3.0",
 ];
 
 fn main() {
-    std::panic::set_hook(Box::new(|_| {}));
     let args = common::parse_args();
     let mut out = Out::new(&args.out);
+    // start-up assertions (chunk classes of the data sets) must be loud
     let w = World::new();
+    std::panic::set_hook(Box::new(|_| {}));
     let rt = tokio::runtime::Builder::new_current_thread().enable_all().build().expect("runtime");
     let lines: Vec<String> = match &args.replay {
         Some(p) => common::read_lines(p),
@@ -905,7 +1139,25 @@ fn main() {
         }
     };
     for line in &lines {
-        let res = exec(&w, &rt, line);
+        if line.starts_with("vaultperm ") {
+            let res = exec_vaultperm(&w, &rt, line, &mut out);
+            out.count(&format!("vaultperm:{}", if res.contains(" | ") { "varies" } else { res.split(' ').next().unwrap_or("?") }));
+            out.nontrivial_case(line);
+            out.line(line.clone(), res);
+            continue;
+        }
+        let raw = exec(&w, &rt, line);
+        let (res, rehash_bad) = match raw.strip_suffix(" #rehash=bad") {
+            Some(r) => (r.to_string(), true),
+            None => (raw, false),
+        };
+        if rehash_bad {
+            out.oracle_fail(
+                "data-rehash",
+                line,
+                &format!("data_get_public returned `{res}`: bytes that do not self-encrypt back to the requested data address"),
+            );
+        }
         let ws: Vec<&str> = line.split_whitespace().collect();
         let op = ws.first().copied().unwrap_or("?");
         let cls = res.split(' ').take(if res.starts_with("err") { 2 } else { 1 }).collect::<Vec<_>>().join("-");
